@@ -61,7 +61,7 @@ def run(pid, ev, rep, tmp, tests=('tests',)):
         lexed_tokens(out, ev, rep, tmp)
     cases = []
     for f in sorted(glob.glob(os.path.join(out, '[0-9]*.ndjson'))):
-        if f.endswith('.tokens.ndjson'):
+        if f.endswith('.tokens.ndjson') or f.endswith('.digraph.ndjson'):
             continue
         for line in open(f):
             b = json.loads(line)
